@@ -270,7 +270,7 @@ pub fn run(ctx: &Ctx) -> Report {
     rep.sections.push(sec);
 
     let mut sec = Section::new(&format!("generated[{}]", ctx.variant), "model x orientation x (top,bottom,offset) in u16^3, boundary biased, a third with top+bottom forced to rows+-2 or 65536+-2");
-    run_generated(&mut sec, ctx.seed, ctx.cases(150_000, 3_000_000), ctx.workers, strategy, check, sig);
+    run_generated(&mut sec, ctx.seed, ctx.cases(500_000, 10_000_000), ctx.workers, strategy, check, sig);
     rep.sections.push(sec);
 
     // all 65536 offsets
